@@ -124,8 +124,11 @@ func check(args []string) int {
 			continue
 		}
 		nviol++
-		if r := resByName[v.Obligation]; r != nil && r.Status == "failed" {
+		if r := resByName[v.Obligation]; r != nil {
 			for _, sp := range specs {
+				if r.Status != "failed" && !sp.Static {
+					continue
+				}
 				if ok, _ := regexp.MatchString(sp.Obligation, v.Obligation); ok {
 					ro := gov.RunReplay(sp, r, *repo, *verif, filepath.Join(outDirV, "replay"))
 					v.Replay = ro
